@@ -76,7 +76,7 @@ pub struct Replayed<EF> {
 
 #[macro_export]
 macro_rules! chal_universe {
-    ($modname:ident, $uname:expr, $f:ty, $ef:ty, $width:expr, $rate:expr, $permty:ty, $mkperm:expr, $enable:ident, $p2params:ty, $tracegen:expr, $chalcfg:ty, $newchal:expr) => {
+    ($modname:ident, $uname:expr, $f:ty, $ef:ty, $width:expr, $rate:expr, $permty:ty, $mkperm:expr, $enable:ident, $p2params:ty, $tracegen:expr, $chalcfg:ty, $newchal:expr, $wrap:expr, $coeff_ctl:expr) => {
         pub mod $modname {
             use p3_challenger::{CanObserve, CanSample, CanSampleBits, DuplexChallenger, FieldChallenger, GrindingChallenger};
             use p3_circuit::CircuitBuilder;
@@ -105,11 +105,22 @@ macro_rules! chal_universe {
                 P: Permutation<[F; WIDTH]> + Clone + Send + Sync + 'static,
             {
                 let mut cb = CircuitBuilder::<EF>::new();
-                cb.$enable::<$p2params, _>($tracegen, perm);
+                cb.$enable::<$p2params, _>($tracegen, ($wrap)(perm));
                 if recompose_table {
                     cb.enable_recompose::<F>(p3_circuit::ops::generate_recompose_trace::<F, EF>);
                 }
+                // base-field permutation inside a higher-degree circuit field: the hinted
+                // coefficients of a decomposition are tied back through the recompose/coeff table
+                // (documented requirement of `decompose_ext_to_base_coeffs` in that configuration)
+                cb.set_recompose_coeff_ctl_for_decompose_links($coeff_ctl && recompose_table);
                 cb
+            }
+
+            /// Every sampled wire is read by an ALU row, so that the value the run assigned to it is a
+            /// committed, bus-checked cell of the proof (a wire nobody reads exists only in the
+            /// runner's memory: the proof would attest the table's value, not the run's).
+            fn consume(cb: &mut CircuitBuilder<EF>, t: p3_circuit::ExprId) {
+                let _ = cb.mul(t, t);
             }
 
             fn ef_from(c: &[u64]) -> EF {
@@ -173,6 +184,7 @@ macro_rules! chal_universe {
                             let tag = format!("s{k}");
                             k += 1;
                             cb.tag(t, tag.clone()).map_err(|e| format!("{e:?}"))?;
+                            consume(cb, t);
                             expected.push((tag, EF::from(nv)));
                             smp(&mut inb, &mut outb, &mut perms);
                             states.push((inb, outb, 2));
@@ -185,6 +197,7 @@ macro_rules! chal_universe {
                             // recomposed constant may be CSE'd with an earlier wire: duplicate tags on
                             // the same wire are fine, duplicate tag names are not
                             cb.tag(t, tag.clone()).map_err(|e| format!("{e:?}"))?;
+                            consume(cb, t);
                             expected.push((tag, nv));
                             for _ in 0..D {
                                 smp(&mut inb, &mut outb, &mut perms);
@@ -199,6 +212,7 @@ macro_rules! chal_universe {
                                 let tag = format!("s{k}");
                                 k += 1;
                                 cb.tag(*b, tag.clone()).map_err(|e| format!("{e:?}"))?;
+                                consume(cb, *b);
                                 expected.push((tag, EF::from_bool((nv >> j) & 1 == 1)));
                             }
                             smp(&mut inb, &mut outb, &mut perms);
@@ -235,6 +249,7 @@ macro_rules! chal_universe {
                 let nv: F = native.sample();
                 let t = RecursiveChallenger::<F, EF>::sample(&mut cc, cb);
                 cb.tag(t, "residual".to_string()).map_err(|e| format!("{e:?}"))?;
+                consume(cb, t);
                 expected.push(("residual".to_string(), EF::from(nv)));
                 Ok(Replayed { expected, publics, native_pow_ok, states, permutations_estimate: perms })
             }
@@ -255,7 +270,9 @@ chal_universe!(
     p3_poseidon2_circuit_air::KoalaBearD4Width16,
     p3_circuit::ops::generate_poseidon2_trace::<EF, p3_poseidon2_circuit_air::KoalaBearD4Width16>,
     p3_circuit::ops::Poseidon2Config,
-    CircuitChallenger::new_koalabear()
+    CircuitChallenger::new_koalabear(),
+    |p| p,
+    false
 );
 chal_universe!(
     bb4,
@@ -270,7 +287,9 @@ chal_universe!(
     p3_poseidon2_circuit_air::BabyBearD4Width16,
     p3_circuit::ops::generate_poseidon2_trace::<EF, p3_poseidon2_circuit_air::BabyBearD4Width16>,
     p3_circuit::ops::Poseidon2Config,
-    CircuitChallenger::new_babybear()
+    CircuitChallenger::new_babybear(),
+    |p| p,
+    false
 );
 chal_universe!(
     kb1,
@@ -285,7 +304,9 @@ chal_universe!(
     p3_circuit::ops::KoalaBearD1Width16,
     p3_circuit::ops::generate_poseidon2_trace::<EF, p3_circuit::ops::KoalaBearD1Width16>,
     p3_circuit::ops::Poseidon2Config,
-    CircuitChallenger::new_koalabear_base()
+    CircuitChallenger::new_koalabear_base(),
+    |p| p,
+    false
 );
 chal_universe!(
     kb1p1,
@@ -300,7 +321,9 @@ chal_universe!(
     p3_circuit::ops::poseidon1_perm::KoalaBearD1Width16,
     p3_circuit::ops::generate_poseidon1_trace::<EF, p3_circuit::ops::poseidon1_perm::KoalaBearD1Width16>,
     p3_circuit::ops::Poseidon1Config,
-    CircuitChallenger::new_koalabear_poseidon1_base()
+    CircuitChallenger::new_koalabear_poseidon1_base(),
+    |p| p,
+    false
 );
 chal_universe!(
     gl2,
@@ -319,7 +342,9 @@ chal_universe!(
     p3_circuit::ops::GoldilocksD2Width8,
     p3_circuit::ops::generate_poseidon2_trace::<EF, p3_circuit::ops::GoldilocksD2Width8>,
     p3_circuit::ops::Poseidon2Config,
-    CircuitChallenger::new_goldilocks()
+    CircuitChallenger::new_goldilocks(),
+    |p| p,
+    false
 );
 chal_universe!(
     gl2p1,
@@ -334,5 +359,24 @@ chal_universe!(
     p3_circuit::ops::poseidon1_perm::GoldilocksD2Width8,
     p3_circuit::ops::generate_poseidon1_trace::<EF, p3_circuit::ops::poseidon1_perm::GoldilocksD2Width8>,
     p3_circuit::ops::Poseidon1Config,
-    CircuitChallenger::new_goldilocks_poseidon1()
+    CircuitChallenger::new_goldilocks_poseidon1(),
+    |p| p,
+    false
+);
+chal_universe!(
+    kb5q1,
+    "KoalaBear-Quintic-D1challenger-W16-Poseidon2",
+    p3_koala_bear::KoalaBear,
+    p3_field::extension::QuinticTrinomialExtensionField<p3_koala_bear::KoalaBear>,
+    16,
+    8,
+    p3_koala_bear::Poseidon2KoalaBear<16>,
+    p3_koala_bear::default_koalabear_poseidon2_16(),
+    enable_poseidon2_perm_base,
+    p3_circuit::ops::KoalaBearD1Width16,
+    p3_circuit::ops::generate_poseidon2_trace::<EF, p3_circuit::ops::KoalaBearD1Width16>,
+    p3_circuit::ops::Poseidon2Config,
+    CircuitChallenger::new_koalabear_base(),
+    |p| p3_test_utils::LiftPermToQuintic::<F, _, 16>::new(p),
+    true
 );
